@@ -123,7 +123,10 @@ def summarize(body, blocks, end, env0=None, named_only=True):
             lab = labs[0] if len(labs) == 1 else tuple(labs)
             if t.get('variants'):
                 scrut = ev.place(t['discr_of'])
-                v = variant_of_edge(body, bi, lab) if not isinstance(lab, tuple) else None
+                if isinstance(lab, tuple):
+                    v = tuple(sorted(str(variant_of_edge(body, bi, l_)) for l_ in lab))
+                else:
+                    v = variant_of_edge(body, bi, lab)
                 p.events.append(('cond', ('variant', scrut), v, bi))
             elif t.get('sty') == 'bool':
                 p.events.append(('cond', cond, bool_truth(body, bi, lab) if not isinstance(lab, tuple) else None, bi))
